@@ -87,3 +87,83 @@ Proof.
   split; [|split; reflexivity].
   simpl. repeat split; intro k; reflexivity.
 Qed.
+
+(* ---------- the Difference machine and open-ended queries (Proofs/PullDiff.v) ---------- *)
+From CG Require Import Proofs.PullDiff.
+
+(* the Difference machine (lazy subtractor cursor, look-ahead of one subtractor) over arbitrary
+   operand machines refines the list sweep *)
+Theorem C14_difference_refines : forall env o src subs Ls Lsubs,
+  runs env o src Ls -> Forall2 (runs env o) subs Lsubs ->
+  runs env o (MDiff DInit None src (MUnion UInit (map (fun m => (None, m)) subs)))
+       (diff_sweep Ls Lsubs).
+Proof. exact diff_machine_refines. Qed.
+Print Assumptions C14_difference_refines.
+
+(* refinement to the list model for ALL operators — differences with subtractors included
+   ([wfx]: every intersection node has at least two operands, the modelling convention) *)
+Theorem C14_pull_eq_list_all_operators : forall env o e a b,
+  wfx e = true -> pos_periods e = true -> leaves_ok o e a (Some b) ->
+  runs env o (pslice e a (Some b)) (lslice env e a b).
+Proof. exact pull_eq_list_slice_diff. Qed.
+Print Assumptions C14_pull_eq_list_all_operators.
+
+(* bounded queries always terminate, all operators *)
+Theorem C14_bounded_terminates_all_operators : forall env o e a b,
+  wfx e = true -> pos_periods e = true -> leaves_ok o e a (Some b) ->
+  exists l, runs env o (pslice e a (Some b)) l.
+Proof. exact bounded_terminates_diff. Qed.
+Print Assumptions C14_bounded_terminates_all_operators.
+
+(* taking n items of a bounded slice gives the first n of the list semantics *)
+Theorem C14_bounded_take_is_list_prefix : forall F env o e a b n c outs fin m' c',
+  wfx e = true -> pos_periods e = true -> leaves_ok o e a (Some b) ->
+  take F env o n (pslice e a (Some b)) c = Some (outs, fin, m', c') ->
+  outs = firstn n (lslice env e a b) /\
+  (fin = true -> outs = lslice env e a b) /\
+  (fin = false -> length outs = n).
+Proof. exact bounded_take_is_list_prefix. Qed.
+Print Assumptions C14_bounded_take_is_list_prefix.
+
+(* "the first n results of e[a:] are exactly the first n results of a sufficiently long bounded
+   query", with EQUAL pull counters: for complement-free expressions (periodic and stored
+   leaves, | & - filter buffer), whenever the open-ended run delivered its n results without an
+   unbounded item reaching the clip (slice_horizon <= POS_INF), every bounded window reaching
+   past the computable horizon runs identically — same items, same pulls per source, same fuel *)
+Theorem C14_prefix_of_bounded_partial : forall F env e a n c outs fin m' c',
+  nsc e = true -> operands e <> [] ->
+  take F env (oenv_of (pand e PSolid) a None) n (pslice e a None) c = Some (outs, fin, m', c') ->
+  slice_horizon F env e a n c <= POS_INF ->
+  exists B, forall b, B <= b ->
+    take F env (oenv_of (pand e PSolid) a (Some b)) n (pslice e a (Some b)) c
+      = Some (outs, fin, toB b m', c').
+Proof. exact prefix_of_bounded_partial. Qed.
+Print Assumptions C14_prefix_of_bounded_partial.
+
+(* ... hence the open-ended result is a prefix of the LIST semantics of long bounded windows *)
+Theorem C14_open_slice_is_list_prefix : forall F env e a n c outs m' c',
+  nsc e = true -> wfx e = true -> pos_periods e = true ->
+  (forall b, leaves_ok (oenv_of (pand e PSolid) a (Some b)) e a (Some b)) ->
+  take F env (oenv_of (pand e PSolid) a None) n (pslice e a None) c = Some (outs, false, m', c') ->
+  slice_horizon F env e a n c <= POS_INF ->
+  exists B, forall b, B <= b -> outs = firstn n (lslice env e a b) /\ length outs = n.
+Proof. exact open_slice_is_list_prefix. Qed.
+Print Assumptions C14_open_slice_is_list_prefix.
+
+(* the side condition cannot be dropped: an unbounded stored event reaches the clip with end None
+   in the open query and with end b in every bounded one (not a calgebra defect: the property
+   speaks of recurring sources) *)
+Theorem C14_prefix_of_bounded_refuted :
+  exists F env e a n c outs m' c',
+    nsc e = true /\ operands e <> [] /\ wfx e = true /\
+    take F env (oenv_of (pand e PSolid) a None) n (pslice e a None) c = Some (outs, false, m', c') /\
+    POS_INF < slice_horizon F env e a n c /\
+    forall B, B < POS_INF -> exists b, B <= b < POS_INF /\
+      exists outs' fin' m'' c'',
+        take F env (oenv_of (pand e PSolid) a (Some b)) n (pslice e a (Some b)) c
+          = Some (outs', fin', m'', c'') /\ outs' <> outs.
+Proof. exact prefix_of_bounded_refuted. Qed.
+Print Assumptions C14_prefix_of_bounded_refuted.
+
+Example C14_prefix_of_bounded_nonvacuous : _ := prefix_of_bounded_partial_ex.
+Example C14_difference_refines_nonvacuous : _ := pull_eq_list_slice_diff_ex.
